@@ -13,7 +13,10 @@ theorem skel_handleReader_shape :
   "wf := func{…}",
   "  cb(w)",
   "bufferedRequest := new(bytes.Buffer)",
-  "reqSize, err := bufferedRequest.ReadFrom(io.LimitReader(r, s.maxRequestSize+1))",
+  "limit := s.maxRequestSize",
+  "if limit < math.MaxInt64",
+  "  limit++",
+  "reqSize, err := bufferedRequest.ReadFrom(io.LimitReader(r, limit))",
   "if err != nil",
   "  rpcError(wf, nil, rpcParseError, xerrors.Errorf(\"reading request: %w\", err))",
   "  return",
@@ -27,7 +30,7 @@ theorem skel_handleReader_shape :
   "  return",
   "if bufferedRequest.Bytes()[0] == '[' && bufferedRequest.Bytes()[reqSize-1] == ']'",
   "  var reqs []request",
-  "  if err := json.NewDecoder(bufferedRequest).Decode(&reqs); err != nil",
+  "  if err := json.Unmarshal(bufferedRequest.Bytes(), &reqs); err != nil",
   "    rpcError(wf, nil, rpcParseError, xerrors.New(\"Parse error\"))",
   "    return",
   "  if len(reqs) == 0",
@@ -41,17 +44,17 @@ theorem skel_handleReader_shape :
   "    if req.ID, err = normalizeID(req.ID); err != nil",
   "      rpcError(bwf, &req, rpcParseError, xerrors.Errorf(\"failed to parse ID: %w\", err))",
   "      continue",
-  "    s.handle(ctx, req, bwf, rpcError, func{…}, nil)",
+  "    s.handle(ctx, req, notifWriter(req, bwf), rpcError, func{…}, nil)",
   "  bw.finish()",
   "else",
   "  var req request",
-  "  if err := json.NewDecoder(bufferedRequest).Decode(&req); err != nil",
+  "  if err := json.Unmarshal(bufferedRequest.Bytes(), &req); err != nil",
   "    rpcError(wf, &req, rpcParseError, xerrors.New(\"Parse error\"))",
   "    return",
   "  if req.ID, err = normalizeID(req.ID); err != nil",
   "    rpcError(wf, &req, rpcParseError, xerrors.Errorf(\"failed to parse ID: %w\", err))",
   "    return",
-  "  s.handle(ctx, req, wf, rpcError, func{…}, nil)"] := rfl
+  "  s.handle(ctx, req, notifWriter(req, wf), rpcError, func{…}, nil)"] := rfl
 
 /-- `rpcError`: the error reply (code, message, id echoed) written through the writer callback; HTTP status selection for the protocol codes. -/
 theorem skel_rpcError_shape :
